@@ -118,7 +118,7 @@ def catalogue(d, members, tier, rnd):
     if codes or d['hasExt']:
         vals.extend([shaped(t, mn), shaped(t, mx), 'Q' * max(mn, 1)])
     if d['regex']:
-        vals.extend(['123456789', '12345678', '1234567890', '12345678A', 'A23456789', '         '])
+        vals.extend(['123456789', '12345678', '1234567890', '12345678A', 'A23456789', '         ', 'A123456789', '12-123456789', 'AB 123456789 C'])   # (the pattern is searched for, not anchored)
     # --- numbers: sign and point are not counted
     if numeric:
         for n in (mn - 1, mn, mx, mx + 1):
